@@ -824,7 +824,7 @@ func rulesC20(w *World, r *Report) {
 		r.Check(tOK, "C20.R4", "randomPoints:times", w.pos(rp.Pos()), "times are offsets from the step-truncated until", "a generated time is not an offset from until.Truncate(step): "+tGot)
 	}
 	ruleTruncateEpoch(w, r, "C20.R4")
-	ruleC05R7(w, r, "C05.R7")
+	ruleC05R7(w, r, "C05.R7", 2, cmdReachableFrom(w, "GenerateCommand"))
 }
 
 // osConst reads an integer constant of package os as configured for the analysed platform.
